@@ -1,5 +1,6 @@
 SPECIFICATION TSpec
 CONSTANTS
+  Variant = "pinned"
   Trains = {}
   Templates = {}
   Topos = {}
